@@ -626,16 +626,39 @@ func c19rest(c *an.Ctx) {
 		if f := fn(r, H+":authenticate"); f != nil {
 			if lits := f.FindLits(); len(lits) > 0 {
 				g := f.Lit(lits[0], "handler")
-				parse := g.Find(an.MNode("jwt.Parse", func(f *an.Fn, n ast.Node) bool {
+				isParse := an.MNode("jwt.Parse", func(f *an.Fn, n ast.Node) bool {
 					ce, ok := n.(*ast.CallExpr)
 					if !ok {
 						return false
 					}
 					cal := an.Callee(f.Info, ce)
 					return cal != nil && cal.Pkg() != nil && strings.Contains(cal.Pkg().Path(), "golang-jwt/jwt") && strings.HasPrefix(cal.Name(), "Parse")
-				}))
-				g.Guarded(r, parse, "bearer token parsed only when the shared secret is not empty",
-					an.AtomLike(`^""==outer1\.p1\.Config\.SharedSecret$`, false), an.AtomLike(`^0==len\(outer1\.p1\.`, false), an.AtomLike(`^0<len\(outer1\.p1\.`, true))
+				})
+				parse := g.Find(isParse)
+				holder := g
+				if parse.Len() == 0 {
+					// the parse may have been extracted into a helper of the package called from the handler
+					ast.Inspect(lits[0].Body, func(m ast.Node) bool {
+						ce, ok := m.(*ast.CallExpr)
+						if !ok || parse.Len() > 0 {
+							return true
+						}
+						cal := an.Callee(g.Info, ce)
+						if cal == nil || cal.Pkg() != g.Pkg.Types {
+							return true
+						}
+						if src := c.P.Src(cal); src != nil && src.Decl.Body != nil {
+							if hf := c.P.Fn(src); hf != nil {
+								if ps := hf.Find(isParse); ps.Len() > 0 {
+									holder, parse = hf, ps
+								}
+							}
+						}
+						return true
+					})
+				}
+				holder.Guarded(r, parse, "bearer token parsed only when the shared secret is not empty",
+					an.AtomLike(`^""==(outer1\.p1|recv)\.Config\.SharedSecret$`, false), an.AtomLike(`^0==len\((outer1\.p1|recv)\.`, false), an.AtomLike(`^0<len\((outer1\.p1|recv)\.`, true))
 			}
 		}
 		// ParseCredentials only produces the two methods the switch handles
